@@ -361,8 +361,23 @@ func urlCase(kind string, plain bool, ref registry.Reference) {
 	if plain {
 		p = "1"
 	}
+	// net/url's own parse of the built URL, compared with the model's RFC 3986 splitter
+	split := "NOSPLIT"
+	if pu, err := url.Parse(u); err == nil {
+		opt := func(present bool, v string) string {
+			if !present {
+				return "none"
+			}
+			return "some:" + common.Hex(v)
+		}
+		split = fmt.Sprintf("SPLIT %s %s %s %s %s", common.Hex(pu.Scheme), common.Hex(pu.Host), common.Hex(pu.EscapedPath()),
+			opt(pu.RawQuery != "" || pu.ForceQuery, pu.RawQuery), opt(pu.Fragment != "" || strings.HasSuffix(u, "#"), pu.EscapedFragment()))
+		if pu.User != nil {
+			split += " USERINFO"
+		}
+	}
 	run.Case(id, fmt.Sprintf("U %s %s %s %s %s", kind, p, common.Hex(ref.Registry), common.Hex(ref.Repository), common.Hex(ref.Reference)),
-		"URL "+common.Hex(u))
+		"URL "+common.Hex(u)+" "+split)
 	run.Nontrivial("U:" + kind + p + ref.String())
 	run.Count("url_" + kind)
 }
